@@ -27,7 +27,7 @@ PROP = 'C19'
 LEVEL = 'fault_enumeration'
 EVAL_KEY = 'steps'
 TIERS = {
-    'quick': {'runs': 1600, 'opts': {'length': [10, 16], 'enum_prob': 0.15}, 'chunk': 25},
+    'quick': {'runs': 8000, 'opts': {'length': [10, 16], 'enum_prob': 0.15}, 'chunk': 50},
     'thorough': {'runs': 30000, 'opts': {'length': [10, 30], 'enum_prob': 1.0}, 'chunk': 50, 'time_cap': 1200},
 }
 RULE = ('seeded histories over {create, save(path), save(file object), load, clone, detach, to, cpu, numpy, in-place mutation of '
